@@ -23,6 +23,12 @@ type repCase struct {
 	Lang   string `json:"language_tag"`
 	NoOpt  bool   `json:"no_language_option"` // build the report without any option (default English)
 	Vector string `json:"vector"`
+	// Earlier: language options passed *before* Lang in the same constructor call (the last
+	// option decides). Warmup: tags for which a report of the same object is built first and
+	// discarded (regional / script variants of en and ja are unspecified in content, but
+	// having rendered them must not change what a later en / ja report shows).
+	Earlier []string `json:"earlier_language_options,omitempty"`
+	Warmup  []string `json:"reports_built_before,omitempty"`
 }
 
 func scoreText(f float64) string { return strconv.FormatFloat(f, 'f', -1, 64) }
@@ -147,11 +153,18 @@ var checkC17 = register("C17/report", func(c repCase) string {
 	if err != nil || o.isNil() {
 		return fmt.Sprintf("well-formed vector rejected: %v", err)
 	}
+	for _, w := range c.Warmup {
+		buildReport(o, level, report.WithOptionsLanguage(language.Make(w)))
+	}
 	var rep any
 	if c.NoOpt {
 		rep = buildReport(o, level)
 	} else {
-		rep = buildReport(o, level, report.WithOptionsLanguage(tag))
+		var opts []report.ReportOptionsFunc
+		for _, e := range c.Earlier {
+			opts = append(opts, report.WithOptionsLanguage(language.Make(e)))
+		}
+		rep = buildReport(o, level, append(opts, report.WithOptionsLanguage(tag))...)
 	}
 	// a report must own its content: building further reports (other vector, same level and
 	// language) before the fields are read must not change it
@@ -181,6 +194,11 @@ var checkC17 = register("C17/report", func(c repCase) string {
 	}
 	return ""
 })
+
+// variantTags: regional / script / extension variants of English and Japanese. What a report
+// in one of them shows is left unspecified (C18), but rendering one must not influence
+// later reports in exact en / ja.
+var variantTags = []string{"ja-JP", "ja-US", "ja-Jpan", "ja-Latn", "ja-u-ca-japanese", "ja-x-private", "en-US", "en-GB", "en-Latn", "en-x-foo", "en-u-nu-latn"}
 
 // titlesDistinct is the precondition that makes a mis-wired title observable.
 func titlesDistinct() string {
@@ -226,11 +244,23 @@ func distinctNeighbours(rt *rapid.T) spec.Vec {
 func TestC17(t *testing.T) {
 	c := begin(t, "C17")
 	defer c.end()
-	c.rec.F.Rule = "sweep (complete): every v3 metric x every value, one at a time on a fixed vector, at every report level covering the metric x {en, ja, fr, und, no option}; rapid: (vector x report level x language) with vectors biased so that C/I/A, MC/MI/MA and CR/IR/AR hold pairwise different values, languages from exact en / ja / 60 other tags / no option. Oracle: hand-written wiring — field <X>Name == localised title of X, <X>Value == localised name of the object's field X (read by reflection), Version == version label, each level's Vector == that level's Encode(), score fields == decimal rendering of that level's Score(), Severity fields == that level's severity, embedded lower reports keep theirs (checked through the embedded paths); other languages == English. Non-trivial = vector in which C/I/A (and the Modified and Requirement triples where present) are pairwise different and at least two levels have different severities; distinct by hash of the case."
+	c.rec.F.Rule = "sweep (complete): every v3 metric x every value, one at a time on a fixed vector, at every report level covering the metric x {en, ja, fr, und, no option}; order sweep: every regional / script variant tag of en and ja rendered first and then exact ja / en / fr, and lists of several language options (the last one decides), at every level; rapid: (vector x report level x language) with vectors biased so that C/I/A, MC/MI/MA and CR/IR/AR hold pairwise different values, languages from exact en / ja / 60 other tags / no option. Oracle: hand-written wiring — field <X>Name == localised title of X, <X>Value == localised name of the object's field X (read by reflection), Version == version label, each level's Vector == that level's Encode(), score fields == decimal rendering of that level's Score(), Severity fields == that level's severity, embedded lower reports keep theirs (checked through the embedded paths); other languages == English. Non-trivial = vector in which C/I/A (and the Modified and Requirement triples where present) are pairwise different and at least two levels have different severities; distinct by hash of the case."
 	c.rec.F.Assumptions = []string{"names package taken as the dictionary (C18 checks it); precondition checked every run: all 26 titles pairwise distinct per language"}
 	if msg := titlesDistinct(); msg != "" {
 		c.violation("harness-precondition", map[string]string{"msg": msg}, "precondition for C17 does not hold: "+msg)
 		return
+	}
+	// cold start: in every other process the very first reports are built in the regional /
+	// script variants of en and ja (their content is unspecified, but a process that rendered
+	// them first must render exact en / ja reports as any other process does)
+	if shard%2 == 1 {
+		if o, err := decode3(spec.Environmental, representatives(3)[4].String(), false); err == nil {
+			for _, w := range variantTags {
+				report.NewEnvironmental(o.E, report.WithOptionsLanguage(language.Make(w)))
+				report.NewBase(o.B, report.WithOptionsLanguage(language.Make(w)))
+			}
+		}
+		c.rec.SetExtra("cold_start_variant_tags_first", true)
 	}
 	nviol := 0
 	i := 0
@@ -262,6 +292,35 @@ func TestC17(t *testing.T) {
 			}
 		}
 	}
+	// ---- order effects: each variant tag rendered first, then exact ja / en; option lists
+	{
+		vec := representatives(3)[4]
+		for lv := spec.Base; lv <= spec.Environmental; lv++ {
+			pv := spec.ProjectV3(vec, lv).String()
+			for _, w := range variantTags {
+				for _, lg := range []string{"ja", "en", "fr"} {
+					i++
+					if nviol > 0 || !mine(i) {
+						continue
+					}
+					cs := repCase{Level: int(lv), Lang: lg, Vector: pv, Warmup: []string{w}}
+					c.rec.Case("order-sweep", fmt.Sprintf("%v", cs), true, "sweep:variant-tag-first")
+					evalEnum(c, "report", cs, checkC17, &nviol)
+				}
+			}
+			for _, earlier := range [][]string{{"ja"}, {"en"}, {"ja", "en"}, {"en", "ja"}, {"ja", "und"}, {"und"}, {"fr", "ja"}} {
+				for _, lg := range []string{"ja", "en", "und", "fr"} {
+					i++
+					if nviol > 0 || !mine(i) {
+						continue
+					}
+					cs := repCase{Level: int(lv), Lang: lg, Vector: pv, Earlier: earlier}
+					c.rec.Case("order-sweep", fmt.Sprintf("%v", cs), true, "sweep:several-language-options")
+					evalEnum(c, "report", cs, checkC17, &nviol)
+				}
+			}
+		}
+	}
 	tags := fixedTags()
 	c.rapidStage("rapid", pick(20000, 1000000), func(rt *rapid.T) {
 		lv := gen.Level().Draw(rt, "level")
@@ -285,6 +344,12 @@ func TestC17(t *testing.T) {
 			lg = ""
 		}
 		cs := repCase{Level: int(lv), Lang: lg, NoOpt: lg == "", Vector: v.String()}
+		if lg != "" && rapid.IntRange(0, 3).Draw(rt, "multiopt") == 0 { // several language options: the last one decides
+			cs.Earlier = rapid.SliceOfN(rapid.SampledFrom([]string{"ja", "en", "und", "fr", "ja-JP"}), 1, 2).Draw(rt, "earlier")
+		}
+		if rapid.IntRange(0, 3).Draw(rt, "warmup") == 0 { // reports in unspecified variant tags built first
+			cs.Warmup = rapid.SliceOfN(rapid.SampledFrom(variantTags), 1, 2).Draw(rt, "warm")
+		}
 		// non-triviality: distinct triples and >= 2 distinct severities across levels
 		nt := false
 		if ref, ok := spec.AcceptV3(cs.Vector, lv); ok {
